@@ -533,13 +533,119 @@ func c06(c *core.Ctx) {
 		}
 	}
 
+	// derived per-record state
+	rDer := c.Rule("C06.derived", "a record object keeps no container-typed state derived from its content (lookup sets, decoded copies) unless every method that changes the content in place - through the existing pointer, so that pointer identity does not reveal the change - also rewrites that state", 1)
+	{
+		_, tst := p.StructOf(pkgTreasure, "treasure")
+		_, cst := p.StructOf(pkgTreasure, "Content")
+		contentFields := map[*types.Var]bool{}
+		for _, f := range core.StructFields(cst) {
+			contentFields[f] = true
+		}
+		aux := map[*types.Var]bool{}
+		for name, f := range core.StructFields(tst) {
+			if name == "mu" || name == "treasure" || name == "saveMethod" || f.Embedded() {
+				continue
+			}
+			switch f.Type().Underlying().(type) {
+			case *types.Map, *types.Slice, *types.Pointer:
+				aux[f] = true
+			}
+		}
+		if len(aux) == 0 {
+			rDer.Ok(pkgTreasure+".treasure:no-derived-state", token.NoPos, "the record object holds the model, its lock, the guard and change flags only")
+		} else {
+			for _, f := range p.FuncsIn(pkgTreasure) {
+				if f.Decl.Body == nil || f.Decl.Recv == nil {
+					continue
+				}
+				info := f.Info()
+				// in-place content writes: `*x.Content.F = ...` or element stores through a Content field
+				inPlace := token.NoPos
+				ast.Inspect(f.Decl.Body, func(x ast.Node) bool {
+					as, ok := x.(*ast.AssignStmt)
+					if !ok {
+						return true
+					}
+					for _, lhs := range as.Lhs {
+						l := core.Unparen(lhs)
+						if st, isStar := l.(*ast.StarExpr); isStar {
+							if fv := core.FieldOf(info, st.X); fv != nil && contentFields[fv] {
+								inPlace = as.Pos()
+							}
+						}
+						if ix, isIx := l.(*ast.IndexExpr); isIx {
+							base := core.Unparen(ix.X)
+							if st, isStar := base.(*ast.StarExpr); isStar {
+								base = st.X
+							}
+							if fv := core.FieldOf(info, base); fv != nil && contentFields[fv] {
+								inPlace = as.Pos()
+							}
+						}
+					}
+					return true
+				})
+				if inPlace == token.NoPos {
+					continue
+				}
+				c.Touch(f)
+				for a := range aux {
+					rewrites := false
+					for _, ac := range core.Accesses(info, f.Decl.Body, map[*types.Var]bool{a: true}, false) {
+						if ac.Write {
+							rewrites = true
+						}
+					}
+					rDer.Check(rewrites, f.Key+":"+a.Name(), inPlace, "derived state rewritten with the content", "the method changes the record's content in place but leaves treasure."+a.Name()+" (state derived from the content) as it was: later operations that consult it see values the record no longer holds (e.g. a value deleted from a uint32 set can never be pushed again)")
+				}
+			}
+		}
+	}
+
 	// auto-destroy tails
-	rA := c.Rule("C06.autodestroy", "every swamp method that removes records through deleteHandler checks for an empty swamp afterwards and then ceases its vigil before Destroy (Destroy waits for all vigils)", 4)
+	rA := c.Rule("C06.autodestroy", "every swamp method that removes records through a delete primitive (a function that removes from the key index, or its thin wrapper) checks for an empty swamp afterwards and then ceases its vigil before Destroy (Destroy waits for all vigils)", 3)
+	// delete primitives, by role: functions that remove a record from the key index, and thin
+	// wrappers whose whole body is a call to such a function
+	keyIdxF := p.MustField(pkgSwamp, "swamp", "beaconKey")
+	prims := map[*core.Func]bool{}
 	for _, f := range p.FuncsIn(pkgSwamp) {
-		if f.Decl.Body == nil || f.Key == pkgSwamp+".swamp.deleteHandler" {
+		if f.Decl.Body == nil {
 			continue
 		}
-		if !callsDirect(f, pkgSwamp+".swamp.deleteHandler") {
+		core.Calls(f.Decl.Body, false, func(call *ast.CallExpr) {
+			if fo := core.Callee(f.Info(), call); fo != nil && fo.Name() == "Delete" && core.FieldOf(f.Info(), core.RecvExpr(call)) == keyIdxF {
+				prims[f] = true
+			}
+		})
+	}
+	for changed := true; changed; {
+		changed = false
+		for _, f := range p.FuncsIn(pkgSwamp) {
+			if f.Decl.Body == nil || prims[f] || len(f.Decl.Body.List) != 1 {
+				continue
+			}
+			if ret, ok := f.Decl.Body.List[0].(*ast.ReturnStmt); ok && len(ret.Results) == 1 {
+				if call, isCall := core.Unparen(ret.Results[0]).(*ast.CallExpr); isCall {
+					if t := p.ByObj[core.Callee(f.Info(), call)]; t != nil && prims[t] {
+						prims[f] = true
+						changed = true
+					}
+				}
+			}
+		}
+	}
+	for _, f := range p.FuncsIn(pkgSwamp) {
+		if f.Decl.Body == nil || prims[f] {
+			continue
+		}
+		usesPrim := false
+		core.Calls(f.Decl.Body, false, func(call *ast.CallExpr) {
+			if t := p.ByObj[core.Callee(f.Info(), call)]; t != nil && prims[t] {
+				usesPrim = true
+			}
+		})
+		if !usesPrim {
 			continue
 		}
 		info := f.Info()
@@ -755,6 +861,36 @@ func c09(c *core.Ctx) {
 					return true
 				})
 				rS.Check(bad == "", f.Key+":after-Save("+r.Recv+")", sv.Pos(), "no guarded mutation after Save", "after Save (which releases the guard in immediate-write mode) the function still calls "+bad+" with the same guard ID: the mutation races with the next holder and can be lost")
+				// reads of the record after Save are unguarded in immediate-write mode: the value may already
+				// belong to the next writer. Accepted: the key (immutable), and reads whose result is only logged.
+				readAfter := ""
+				r.Fl.Walk(ls, nil, false, func(l core.Loc, n ast.Node) bool {
+					if _, isDefer := n.(*ast.DeferStmt); isDefer {
+						return true
+					}
+					core.Calls(n, false, func(c2 *ast.CallExpr) {
+						if c2 == sv {
+							return
+						}
+						fo := core.Callee(info, c2)
+						if fo == nil || core.Short(pkgPathOf(fo)) != pkgTreasure {
+							return
+						}
+						rx := core.RecvExpr(c2)
+						if rx == nil || core.ExprStr(rx) != r.Recv {
+							return
+						}
+						if !strings.HasPrefix(fo.Name(), "Get") && !strings.HasPrefix(fo.Name(), "Is") && !strings.HasPrefix(fo.Name(), "Uint32Slice") {
+							return
+						}
+						if fo.Name() == "GetKey" {
+							return
+						}
+						readAfter = fo.Name()
+					})
+					return true
+				})
+				rS.Check(readAfter == "", f.Key+":read-after-Save("+r.Recv+")", sv.Pos(), "the record is not read again after Save", "after Save (which releases the guard in immediate-write mode) the function reads the record again ("+readAfter+") without the guard: a queued writer of the same key can commit in between, so the value reported for this request is not the one it committed (two concurrent +1 on 1 both answer 3)")
 			}
 		}
 	}
